@@ -152,19 +152,13 @@ def column_relative_humidity(q, p, t, axis=0):
         # t to es
         es = e_eq_mixed_mk(t)
         es.shape = (dim)
-        # es to qs 
-        if len(dim) == 1:
-            l = len(es)
-        else:
-            l = len(es[axis])
-        # qs = specific_humidity(es, ps)
-        qs = np.zeros(dim)
-        es = es.swapaxes(0,axis)
-        qs = qs.swapaxes(0,axis)
-        for i in range(0,l):
-            qs[i] = water_vapor_pressure2specific_humidity(es[i], p[i])
-        es = es.swapaxes(axis,0)
-        qs = qs.swapaxes(axis,0)
+        # es to qs (the pressure may be given along `axis` only)
+        p_levels = np.asarray(p)
+        if p_levels.ndim == 1 and len(dim) > 1:
+            shape = [1] * len(dim)
+            shape[axis] = -1
+            p_levels = p_levels.reshape(shape)
+        qs = water_vapor_pressure2specific_humidity(es, p_levels)
         # qs to vmrs
         vmrs = specific_humidity2vmr(qs)
 
